@@ -219,15 +219,23 @@ def Kind.loadMode : Kind → LoadMode
 /-- `obj.deserialize(doc)` / `obj.loads(text)` on an object that may ALREADY hold content (a second load, a refresh
 after adds): `State → Doc → State × Out`.  The readers' statements are read from the source (`Gen.load_mode_*`): the
 pinned ones assign the document's table (`self.rpms = data["payload"]["rpms"]`), so what the object held before
-plays no part.  A failing load leaves the mapping as it was (the table is assigned last); what it leaves in the
-header version and the compose section is not modelled (kept as before here; the harness does not compare them after
-a refused load).  A reader of another shape has no semantics (`Err.other`). -/
+plays no part.  A failing load leaves the mapping as it was (the table is assigned last) but has already stored the
+document's `header.version` when that was readable (`Header.deserialize` assigns it first); what a load that fails
+later than the header leaves in the compose section is not modelled (kept as before).  A reader of another shape has
+no semantics (`Err.other`). -/
+def versionOfDoc (doc : PyVal) : Option PyVal :=
+  match getItem doc (lit "header") with
+  | .ok hdr => match getItem hdr (lit "version") with
+    | .ok v => some v
+    | .error _ => none
+  | .error _ => none
+
 def loadS (k : Kind) (m : Manifest) (doc : PyVal) : Manifest × Out :=
   match k.loadMode with
   | .replace =>
     match deserialize k doc with
     | .ok m' => (m', .ok ())
-    | .error e => (m, .error e)
+    | .error e => ({ m with version := (versionOfDoc doc).getD m.version }, .error e)
   | .unknown => (m, .error .other)
 
 /-- what `json.load` returns for the text `json.dump(doc, sort_keys=True)` wrote: the same document with every
